@@ -9,7 +9,7 @@ from __future__ import annotations
 
 import io
 
-from .. import defs, impl
+from .. import defs, impl, s6_c14
 from ..common import Case, Result, mkrng
 from ..structprops import rand_bytes
 
@@ -160,6 +160,8 @@ def run(env) -> Result:
                 if j != touched_cs and before["parse"][j] != after["parse"][j]:
                     viol(f"parsing with cs{j} changed after an operation on another object ({history[-1]})", cd)
             before = after
+    # purity histories over cstruct objects that share definition text but not constants / typedefs (see s6_c14)
+    s6_c14.run(env, res, viol, mkrng(env["seed"], "c14:s6"), 14 if tier == "quick" else 400)
     res.sample({"history_example": "construct@cs0, inplace-array@cs0/inst0, construct@cs0, endian@cs1, parse@cs1, ..."})
     return res
 
